@@ -11,7 +11,11 @@
 (* the document has been encoded (what the code does today).                 *)
 (***************************************************************************)
 EXTENDS Naturals, Integers, Sequences, FiniteSets, TLC, Json
-CONSTANTS Writers, Targets0, ConvOutcomes, Faults, Flavours, FsFaults, HaveLibreOffice, EncodeBeforeOpen
+CONSTANTS Writers, Targets0, ConvOutcomes, Faults, Flavours, FsFaults, HaveLibreOffice, EncodeBeforeOpen, ConverterKinds
+\* ConverterKinds: "stub" (an object with a convert method), "default" (converter=None, no LibreOffice installed),
+\*   "real" (LibreOfficeConverter(executable_path=...) driving an external program), "onpath" (converter=None, the
+\*   program is found on PATH); the program of "real"/"onpath" is the environment process of Converter.tla
+RealOutcomes == {"ok", "raise_before", "raise_after", "silent"}
 VARIABLES sc, d, pc, target, parent, tmp, files, res, err, touched
 vars == <<sc, d, pc, target, parent, tmp, files, res, err, touched>>
 \* sc: scenario; target: "absent" | "old" | "new" | "partial"; parent: "missing" | "present"
@@ -24,10 +28,11 @@ Init == /\ sc = Sc0 /\ d = 1 /\ pc = "pick"
 Pick == /\ pc = "pick" /\ d <= 7
         /\ CASE d = 1 -> \E v \in Writers : sc' = [sc EXCEPT !.writer = v]
              [] d = 2 -> \E v \in Targets0 : sc' = [sc EXCEPT !.target0 = v]
-             [] d = 3 -> \E v \in (IF sc.writer = "rtf" THEN {"stub"} ELSE {"stub", "default"}) : sc' = [sc EXCEPT !.converter = v]
+             [] d = 3 -> \E v \in (IF sc.writer = "rtf" THEN {"stub"} ELSE ConverterKinds) : sc' = [sc EXCEPT !.converter = v]
              [] d = 4 -> \E v \in ({0} \cup Faults) : sc' = [sc EXCEPT !.fault = v]
              [] d = 5 -> \E v \in (IF sc.fault = 0 THEN {"base"} ELSE Flavours) : sc' = [sc EXCEPT !.flavour = v]
-             [] d = 6 -> \E v \in (IF sc.writer = "rtf" \/ sc.converter = "default" \/ sc.fault # 0 THEN {"ok"} ELSE ConvOutcomes) :
+             [] d = 6 -> \E v \in (IF sc.writer = "rtf" \/ sc.converter = "default" \/ sc.fault # 0 THEN {"ok"}
+                                 ELSE IF sc.converter \in {"real", "onpath"} THEN RealOutcomes \cap (ConvOutcomes \cup {"silent"}) ELSE ConvOutcomes \ {"silent"}) :
                            sc' = [sc EXCEPT !.conv = v]
              \* an OSError raised by the fsfault-th file-system operation of the export (0 = none)
              [] d = 7 -> \E v \in (IF sc.fault # 0 \/ sc.conv # "ok" THEN {0} ELSE {0} \cup FsFaults) : sc' = [sc EXCEPT !.fsfault = v]
@@ -67,12 +72,17 @@ Convert == /\ pc = "convert"
                                      /\ UNCHANGED <<sc, d, target, parent, tmp, res, err, touched>>
                 [] sc.conv = "raise_before" -> Unwind("convert")
                 [] sc.conv = "raise_after" -> Unwind("convert")      \* the output was produced inside t2 and goes with it
+                \* a well-typed Path to a file that was never created: the type check passes, the move fails
+                [] sc.conv = "ret_missing" -> /\ pc' = "move" /\ UNCHANGED <<sc, d, target, parent, tmp, files, res, err, touched>>
+                [] sc.conv = "silent" -> Unwind("convert")           \* exit status 0 but no output: Converter.tla CheckOutput
                 [] OTHER -> /\ pc' = "typecheck" /\ files' = files \cup {"t2/x.out"}
                             /\ UNCHANGED <<sc, d, target, parent, tmp, res, err, touched>>
 TypeCheck == pc = "typecheck" /\ Unwind("TypeError")
-Move == /\ Step("move", IF sc.writer = "html" THEN "moveres" ELSE "cleanup") /\ target' = "new"
-        /\ files' = files \ {"t2/x.out"} /\ touched' = Append(touched, "move")
-        /\ UNCHANGED <<sc, d, parent, tmp, res, err>>
+Move == /\ pc = "move"
+        /\ IF "t2/x.out" \notin files THEN Unwind("move")      \* nothing to move: the target must not have been touched
+           ELSE /\ pc' = (IF sc.writer = "html" THEN "moveres" ELSE "cleanup") /\ target' = "new"
+                /\ files' = files \ {"t2/x.out"} /\ touched' = Append(touched, "move")
+                /\ UNCHANGED <<sc, d, parent, tmp, res, err>>
 MoveResources == /\ Step("moveres", "cleanup") /\ res' = TRUE /\ files' = files \ {"t2/x_files"}
                  /\ UNCHANGED <<sc, d, target, parent, tmp, err, touched>>
 Cleanup == Step("cleanup", "returned") /\ tmp' = {} /\ files' = {} /\ UNCHANGED <<sc, d, target, parent, res, err, touched>>
@@ -90,7 +100,7 @@ AllOrNothing == /\ (pc = "raised"   => target = Target0State /\ tmp = {} /\ file
                 /\ (pc = "returned" => target = "new" /\ tmp = {} /\ files = {} /\ (res <=> sc.writer = "html"))
 \* the target path is written exactly once, by the last file-system step of a successful export
 TargetOnlyByLastStep == Len(touched) <= 1 /\ (Len(touched) = 1 => touched[1] \in {"move", "writetarget"})
-MalformedRaises == (pc = "returned" /\ sc.writer # "rtf" /\ sc.converter = "stub") => sc.conv = "ok"
+MalformedRaises == (pc = "returned" /\ sc.writer # "rtf" /\ sc.converter \in {"stub", "real", "onpath"}) => sc.conv = "ok"
 Terminal == pc \in {"raised", "returned"}
 Emit == Terminal => PrintT(ToJson([sc |-> sc, pc |-> pc, err |-> err]))
 =============================================================================
